@@ -1003,6 +1003,7 @@ def main():
         t_out = ck.model(t_lines)
         stale_ids = set()
         stale_keys = {}
+        t_reported = set()
         for o, (args, offs, r, hit, filler) in zip(t_out, t_meta):
             if o == "ok":
                 ck.count("transparency_ok")
@@ -1011,6 +1012,9 @@ def main():
             stale_ids.add(id(r[0]) * 1000003 + id(args[1]))
             stale_keys[id(r[0]) * 1000003 + id(args[1])] = stale_key(args, filler)
             op, w = args[1], args[2]
+            if (op.name, o) in t_reported:
+                continue            # the scheduler repeats a request with other block configurations: one report per operator and verdict
+            t_reported.add((op.name, o))
             fdesc = "" if filler is None else f"; the cache entry was filled by operator {filler[0].name} ({filler[0].type.name}, filter {list(filler[1].values.shape)})"
             ck.violation(f"{name}: the answer of encode_weight_and_scale_tensor for operator {op.name} ({op.type.name}, filter {list(w.values.shape)}, "
                          f"kernel {args[4].height}x{args[4].width} dilation {args[4].dilation.x}, depth slices {offs}, cache hit={hit}) is not what the "
